@@ -38,10 +38,10 @@ def tasks(tier, seed, which="C05"):
         if tier == "quick":
             grid = [grid[(seed + i) % len(grid)] for i in (0, 1)] if seed % 3 else grid[:2]
         for gi, params in enumerate(grid):
-            for part, K, box in PARTS:
+            for part, K, box in (PARTS if tier == "quick" else PARTS + [("RandomBinary", None, "u1"), ("RandomKary", 3, "mix2")]):
                 cfg = configs.cfg(algo, part, K, configs.BOXES[box], **params)
                 lab = "%s/%s%s/%s/%d" % (algo, part, K or "", box, gi)
-                d2 = part == "Binary" and box == "u2"
+                d2 = (part == "Binary" and box == "u2") or "Random" in part
                 ts.append({"kind": "algo", "label": "full2/" + lab, "cfg": cfg, "mode": "full", "T": 8 if tier == "quick" else 10,
                            "R": list(configs.R2), "rng_k": 2 if d2 else None, "cost": 3})
                 ts.append({"kind": "algo", "label": "full3/" + lab, "cfg": cfg, "mode": "full", "T": 6 if tier == "quick" else 8,
